@@ -1,7 +1,7 @@
 #!/bin/bash
 # usage: mut.sh <prop> <name> <file> <python-replace-old> <python-replace-new>   (runs on the scratch worktree /tmp/wt)
 prop=$1; name=$2; file=$3; old=$4; new=$5
-cd /tmp/wt && git checkout -q -- . && python3 - "$file" "$old" "$new" <<'PY'
+[ -d /tmp/wt ] || git -C /repo worktree add --detach /tmp/wt HEAD >/dev/null 2>&1; cd /tmp/wt && git checkout -q -- . && python3 - "$file" "$old" "$new" <<'PY'
 import sys
 f,old,new=sys.argv[1:4]
 s=open(f).read()
